@@ -194,3 +194,28 @@ package protobuf
 //@     invariant forall k int :: 0 <= k && k < len(x.Backends) ==> alloc.Backends[k] == x.Backends[k]
 //@     invariant forall k int :: 0 <= k && k < len(x.Assets) ==> alloc.Assets[k] != nil && allocated(payload(alloc.Assets[k])) && unmarshalledFrom(alloc.Assets[k]) == marshalOf(x.Assets[k])
 //@     invariant forall l int :: 0 <= l && l < $i ==> subEq(alloc.Locked[l], x.Locked[l])
+
+// Signature lists of signed states. The conversions of the parameters and the state are not part of this lemma (thin trusted
+// frames: they build new values and do not touch the signature lists).
+//@ func FromParams
+//@   trusted
+//@   noframe
+//@ func FromState
+//@   trusted
+//@   noframe
+//@ pred pbSigSame(y []byte, x []byte) = (x == nil ==> y == nil) && (x != nil ==> len(y) == len(x) && forall j int :: 0 <= j && j < len(x) ==> y[j] == x[j])
+//@ func verifPBSignedStateSigs
+//@   requires x != nil
+//@   modifies *
+//@   inlines FromSignedState, ToSignedState
+//@   ensures fromErr == nil && toErr == nil ==> len(y.Sigs) == len(x.Sigs) && forall k int :: 0 <= k && k < len(x.Sigs) ==> pbSigSame(y.Sigs[k], x.Sigs[k])
+//@   loop FromSignedState.1
+//@     modifies fresh
+//@     invariant protoSignedState != nil && fresh(protoSignedState) && len(protoSignedState.Sigs) == len(signedState.Sigs) && fresh(arr(protoSignedState.Sigs)) && off(protoSignedState.Sigs) == 0
+//@     invariant forall k int :: 0 <= k && k < $i ==> fresh(arr(protoSignedState.Sigs[k])) && len(protoSignedState.Sigs[k]) == len(signedState.Sigs[k]) && forall j int :: 0 <= j && j < len(signedState.Sigs[k]) ==> protoSignedState.Sigs[k][j] == signedState.Sigs[k][j]
+//@   loop ToSignedState.1
+//@     modifies fresh
+//@     invariant len(signedState.Sigs) == len(x.Sigs) && fresh(arr(signedState.Sigs)) && off(signedState.Sigs) == 0 && protoSignedState != nil && len(protoSignedState.Sigs) == len(x.Sigs)
+//@     invariant forall k int :: 0 <= k && k < len(x.Sigs) ==> len(protoSignedState.Sigs[k]) == len(x.Sigs[k]) && forall j int :: 0 <= j && j < len(x.Sigs[k]) ==> protoSignedState.Sigs[k][j] == x.Sigs[k][j]
+//@     invariant forall k int :: 0 <= k && k < $i ==> pbSigSame(signedState.Sigs[k], x.Sigs[k])
+//@     invariant forall k int :: $i <= k && k < len(x.Sigs) ==> signedState.Sigs[k] == nil
